@@ -34,11 +34,15 @@ inductive Field
   | inputs | outputs | allowMissingInputs | allowModifiedOutputs | alwaysOutOfDate
   -- ShellCommand
   | args | env | depsPaths | depsStyle | inheritEnv | canSafelyInterrupt | signatureData | cachedSignature
+  | workingDirectory | controlEnabled
   -- BuildNode
   | type
   -- ClangShellCommand (`args`) / SwiftCompilerShellCommand / SymlinkCommand
   | executable | moduleName | moduleAliases | moduleOutputPath | sourcesList | objectsList | importPaths
   | tempsPath | otherArgs | isLibrary | contents
+  | enableWholeModuleOptimization | numThreads
+  -- ClangShellCommand (`depsPath`), SharedLibraryShellCommand (`executable`, `otherArgs`, `compilerStyle`)
+  | depsPath | compilerStyle
   deriving DecidableEq, Repr
 
 inductive Method
@@ -78,7 +82,7 @@ inductive Stmt
 /-- Class whose `getSignature` a recipe describes / delegates to. -/
 inductive Cls
   | command | externalCommand | shellCommand | buildNode
-  | clangShellCommand | swiftCompilerShellCommand | symlinkCommand
+  | clangShellCommand | swiftCompilerShellCommand | symlinkCommand | sharedLibraryShellCommand
   deriving DecidableEq, Repr
 
 inductive Step
@@ -102,8 +106,8 @@ abbrev Recipe := List Step
 
 The members after `signatureData` belong to the other classes whose `getSignature` is regenerated
 (they default to the value a freshly constructed object has, so shell / phony definitions need not
-mention them): `args` is shared by ShellCommand and ClangShellCommand; `executable` … `isLibrary`
-are SwiftCompilerShellCommand's; `contents` is SymlinkCommand's; `type` (ordinal of
+mention them): `args` is shared by ShellCommand and ClangShellCommand; `executable` … `numThreads`
+are SwiftCompilerShellCommand's (`executable`, `otherArgs` also SharedLibraryShellCommand's); `contents` is SymlinkCommand's; `type` (ordinal of
 `BuildNode::NodeType`: 0 plain, 1 directory, 2 directory-structure, 3 virtual) and `producers`
 (names of the commands returned by `getProducers()`) are BuildNode's — for that class `name` is
 unused by the recipe. -/
@@ -132,8 +136,18 @@ structure CommandDef where
   tempsPath : Bytes := []
   otherArgs : List Bytes := []
   isLibrary : Bool := false
+  enableWholeModuleOptimization : Bool := false
+  /-- the attribute text ("0" by default) -/
+  numThreads : Bytes := [48]
   -- SymlinkCommand
   contents : Bytes := []
+  -- ShellCommand: the working directory as stored (made absolute by `configureAttribute`), `control-enabled`
+  workingDirectory : Bytes := []
+  controlEnabled : Bool := true
+  -- ClangShellCommand: path of the dependency file
+  depsPath : Bytes := []
+  -- SharedLibraryShellCommand (shares `executable`, default "", and `otherArgs` with the Swift members)
+  compilerStyle : Bytes := []
   -- BuildNode
   type : Nat := 0
   producers : List Bytes := []
@@ -176,6 +190,12 @@ def CommandDef.member (d : CommandDef) : Field → Option Val
   | .otherArgs => some (.strs d.otherArgs)
   | .isLibrary => some (.bool d.isLibrary)
   | .contents => some (.str d.contents)
+  | .enableWholeModuleOptimization => some (.bool d.enableWholeModuleOptimization)
+  | .numThreads => some (.str d.numThreads)
+  | .workingDirectory => some (.str d.workingDirectory)
+  | .controlEnabled => some (.bool d.controlEnabled)
+  | .depsPath => some (.str d.depsPath)
+  | .compilerStyle => some (.str d.compilerStyle)
   | .type => some (.int d.type)
   | .cachedSignature => none      -- only touched by cacheLoad / cacheStore, never an argument
 
